@@ -50,9 +50,9 @@ raises `TypeError` when `char` is not a `str` (`truncate_char` is never validate
 def truncTok (width : Int) (char : PyVal) (t : Tok) : Except PyErr Tok :=
   if t.tt != T.StringSingle then .ok t
   else
-    let dbl := t.val.take 2 == [39, 39]
-    let inner := if dbl then sliceInner 2 t.val else sliceInner 1 t.val
-    let quote : Text := if dbl then [39, 39] else [39]
+    -- (repo fix 465bc40: exactly one delimiting quote on each side; a value starting with two quotes is no special case any more)
+    let inner := sliceInner 1 t.val
+    let quote : Text := [39]
     if (inner.length : Int) > width then
       match char with
       | .str ch => .ok ⟨t.tt, quote ++ takeInt width inner ++ ch ++ quote⟩
